@@ -122,6 +122,74 @@ def rule_c(F):
     return res
 
 
+FRESH_CALLS = ("clear",)
+KEEPS_SHAPE = ("fill", "fill_with", "iter_mut", "resize", "resize_with", "retain", "retain_mut", "truncate", "drain", "as_mut_slice",
+               "swap", "reverse", "sort", "dedup", "pop", "remove", "split_off", "set_len")
+
+
+def rule_e(F):
+    """C17.E: what clear does to each collection field restores the state of a fresh VM - it empties it (clear(),
+    mem::take, assignment of a new/default value). An operation that keeps the collection's shape (fill with nil, pop
+    once, truncate to something) leaves an observable difference: the length of the globals decides between
+    `variable not found` and nil."""
+    from cao.facts import hir_walk, hir_callee, hir_strip
+    from cao import hirutil as hu
+    res = []
+    f = F.fn("vm::runtime::RuntimeData::clear")
+    seen = {}
+    todo = [f]
+    done = set()
+    while todo:
+        g = todo.pop()
+        if g.short in done:
+            continue
+        done.add(g.short)
+        for x in hir_walk(g.hir["body"]):
+            k = x.get("k")
+            if k == "mcall":
+                fc = hu.field_chain(x["recv"])
+                if fc is not None and fc[2] == "self" and len(fc[1]) == 1:
+                    ty = (hir_strip(x["recv"]).get("ty") or "")
+                    coll = any(t in ty for t in ("Vec<", "ValueStack", "BoundedStack<", "CaoHashMap<", "HandleTable<"))
+                    if not coll:
+                        continue
+                    fld = fc[1][0]
+                    if x["name"] in FRESH_CALLS:
+                        seen.setdefault(fld, []).append(("fresh", x["name"], x["ln"], g))
+                    elif x["name"] in KEEPS_SHAPE or (x.get("recv", {}).get("ty_adj", "") or "").startswith("&mut"):
+                        seen.setdefault(fld, []).append(("keeps", x["name"], x["ln"], g))
+                elif fc is not None and fc[2] == "self" and not fc[1]:
+                    # helper method of RuntimeData
+                    for n in hir_callee(x):
+                        h = F.fn(n, required=False)
+                        if h is not None and h.hir is not None and n.startswith("vm::runtime::RuntimeData::"):
+                            todo.append(h)
+            elif k == "call" and any(n.endswith("mem::take") or n.endswith("mem::replace") for n in hir_callee(x)):
+                fc = hu.field_chain(x["args"][0])
+                if fc is not None and fc[2] == "self" and len(fc[1]) == 1:
+                    seen.setdefault(fc[1][0], []).append(("fresh", "mem::take", x["ln"], g))
+            elif k == "assign":
+                fc = hu.field_chain(x["l"])
+                if fc is not None and fc[2] == "self" and len(fc[1]) == 1:
+                    seen.setdefault(fc[1][0], []).append(("fresh", "assignment", x["ln"], g))
+    if len(seen) < 4:
+        raise AnchorMissing("field resets in RuntimeData::clear (found %d)" % len(seen))
+    for fld, ops in sorted(seen.items()):
+        key = "C17/E/RuntimeData.%s/reset-restores-the-fresh-state" % fld
+        keeps = [o for o in ops if o[0] == "keeps"]
+        fresh = [o for o in ops if o[0] == "fresh"]
+        if keeps and not fresh:
+            o = keeps[0]
+            res.append(bad("C17.E", key, o[3].loc(o[2]),
+                           "clear resets RuntimeData.%s with `%s`, which keeps the collection's shape: a cleared VM still differs from a "
+                           "fresh one (e.g. global slots that exist and read nil instead of `variable not found`, frames or values left "
+                           "behind)" % (fld, o[1])))
+        else:
+            o = (fresh or keeps)[0]
+            res.append(ok("C17.E", key, o[3].loc(o[2]), "emptied by %s" % o[1]))
+    return res
+
+
 def rule_f(F):
     res = []
     run = F.fn("vm::Vm::run")
@@ -205,6 +273,7 @@ def rule_d(F):
 
 RULES = [
     Rule("C17.C", rule_c, 6, "clear (or the start of run) resets every field a run can write"),
+    Rule("C17.E", rule_e, 4, "what clear does to each field restores the fresh state"),
     Rule("C17.F", rule_f, 1, "the entry frame is balanced per run"),
     Rule("C17.D", rule_d, 1, "no mutable static on paths from Vm::run"),
 ]
